@@ -93,6 +93,8 @@ func evalExecBlock(vm *r.VM, execBlock *syntax.ExecBlock, params []r.Element) (r
 	defer vm.EndScope()
 
 	blockModule := vm.GetCurrentModule()
+	// call depth of this body: calls abandoned by an exception are unwound to it
+	blockFrameDepth := len(vm.GetCallStack())
 	// 1.0 inject 此 value from callFrame's context (for method functions ONLY)
 	if vm.GetCurrentCallFrame() != nil && vm.GetCurrentCallFrame().IsFunctionCallFrame() {
 		thisValue := vm.GetThisValue()
@@ -124,7 +126,7 @@ func evalExecBlock(vm *r.VM, execBlock *syntax.ExecBlock, params []r.Element) (r
 	rtnValue, stmtBlockErr := evalStmtBlock(vm, execBlock.StmtBlock)
 
 	if stmtBlockErr != nil {
-		return handleExceptionSignal(vm, blockModule, execBlock.CatchBlock, stmtBlockErr)
+		return handleExceptionSignal(vm, blockModule, blockFrameDepth, execBlock.CatchBlock, stmtBlockErr)
 	}
 
 	return rtnValue, stmtBlockErr
@@ -178,7 +180,7 @@ func evalPureStmtBlock(vm *r.VM, stmtBlock *syntax.StmtBlock) (r.Element, error)
 	return rtnValue, err
 }
 
-func handleExceptionSignal(vm *r.VM, blockModule *r.Module, catchBlock []*syntax.CatchBlockPair, blockErr error) (r.Element, error) {
+func handleExceptionSignal(vm *r.VM, blockModule *r.Module, blockFrameDepth int, catchBlock []*syntax.CatchBlockPair, blockErr error) (r.Element, error) {
 	// try to find if the blockErr is an exception signal
 	exception, realErr := extractSignalValue(blockErr, zerr.SigTypeException)
 
@@ -205,14 +207,23 @@ func handleExceptionSignal(vm *r.VM, blockModule *r.Module, catchBlock []*syntax
 
 		// if exception block matches exception className
 		if objClassName != "" && classID.GetLiteral() == objClassName {
+			// the calls that were active when the exception was raised never
+			// returned: drop their frames, so that the handler (and the caller
+			// afterwards) runs at this body's own call depth
+			for len(vm.GetCallStack()) > blockFrameDepth {
+				vm.PopCallFrame()
+			}
 			expCallFrame := r.NewExceptionCallFrame(blockModule, exception)
 			vm.PushCallFrame(expCallFrame)
 			// do execution (with "this" value = exception value)
 			_, err := evalPureStmtBlock(vm, catchBlockItem.StmtBlock)
 			if err == nil {
-				// get return value from exception block
+				// get return value from exception block (空 when it has no 输出)
 				rtnValue := vm.GetReturnValue()
 				vm.PopCallFrame()
+				if rtnValue == nil {
+					rtnValue = value.NewNull()
+				}
 
 				return rtnValue, nil
 			}
